@@ -60,11 +60,16 @@ Qed.
 
 (* ---------- invalid names are rejected before anything is produced ---------- *)
 Theorem invalid_rejected name up existing entry :
-  is_dot_name name = false -> vfat_valid name = false ->
+  vfat_valid name = false ->
   create_records name up existing entry = Err ValueError.
 Proof.
-  intros Hd Hv. unfold create_records. rewrite Hd, lfn_valid_spec, Hv. reflexivity.
+  intros Hv. unfold create_records. destruct (is_dot_name name); [reflexivity|].
+  rewrite lfn_valid_spec, Hv. reflexivity.
 Qed.
+(* "." and ".." are never stored as the name of a created entry *)
+Theorem dot_names_rejected name up existing entry :
+  is_dot_name name = true -> create_records name up existing entry = Err ValueError.
+Proof. intros Hd. unfold create_records. rewrite Hd. reflexivity. Qed.
 
 Lemma beq_length a : forall b, beq a b = true -> length a = length b.
 Proof.
@@ -120,7 +125,7 @@ Corollary too_long_nothing_produced name up existing entry :
 Proof.
   intros Hs Hl. assert (P : prefix_entries name up existing entry = Err ValueError)
     by (unfold prefix_entries; rewrite (too_long_rejected name up existing Hs Hl); reflexivity).
-  split; [exact P|]. unfold create_records. rewrite P. destruct (_ || _); reflexivity.
+  split; [exact P|]. unfold create_records. rewrite P. destruct (is_dot_name name); [reflexivity|]. destruct (lfn_valid name); reflexivity.
 Qed.
 
 (* ---------- the alias uses only legal 8.3 bytes ---------- *)
